@@ -66,7 +66,13 @@ type fakeConn struct{ st *fakeState }
 
 func (c *fakeConn) Prepare(q string) (driver.Stmt, error) { return &fakeStmt{c: c, q: q}, nil }
 func (c *fakeConn) Close() error                          { return nil }
-func (c *fakeConn) Begin() (driver.Tx, error)             { return nil, errors.New("c13 fake: no tx") }
+func (c *fakeConn) Begin() (driver.Tx, error)             { return fakeTx{}, nil }
+
+// fakeTx: DB.InsertRows / UpsertRows wrap their chunks in a transaction.
+type fakeTx struct{}
+
+func (fakeTx) Commit() error   { return nil }
+func (fakeTx) Rollback() error { return nil }
 
 func (c *fakeConn) QueryContext(ctx context.Context, q string, args []driver.NamedValue) (driver.Rows, error) {
 	atomic.AddInt64(&c.st.queries, 1)
